@@ -413,6 +413,10 @@ parse_next_record_header:
         goto encodeResponse;
     }
 
+#ifdef MATRIXSSL_VERIF
+    MATRIX_VERIF_EV(MXV_REC_OK, ssl, innerType,
+        DECRYPTING_RECORDS(ssl) ? 1 : 0, p, ptLen);
+#endif
     /* Deal with the decrypted message. */
     if (innerType == SSL_RECORD_TYPE_HANDSHAKE)
     {
@@ -809,6 +813,9 @@ static int32_t tls13ParseHandshakeMessage(ssl_t *ssl,
     psParseBuf_t pb;
     unsigned char *msgStart = *bufStart;
     unsigned char *msgEnd = bufEnd;
+#ifdef MATRIXSSL_VERIF
+    int mxvType = -1;
+#endif
 # ifdef USE_SERVER_SIDE_SSL
     unsigned char *hsMsgStart;
 # endif
@@ -890,6 +897,10 @@ static int32_t tls13ParseHandshakeMessage(ssl_t *ssl,
     {
         goto exit;
     }
+#ifdef MATRIXSSL_VERIF
+    mxvType = type;
+    MATRIX_VERIF_EV(MXV_HS_GATE, ssl, type, ssl->hsState, NULL, 0);
+#endif
 
     switch(type)
     {
@@ -1112,6 +1123,12 @@ static int32_t tls13ParseHandshakeMessage(ssl_t *ssl,
     }
 
 exit:
+#ifdef MATRIXSSL_VERIF
+    if (mxvType >= 0)
+    {
+        MATRIX_VERIF_EV(MXV_HS_ACCEPT, ssl, mxvType, rc, NULL, 0);
+    }
+#endif
     /* In case the message was fragmented it must be freed after
        it now has been processed */
     tls13FragMessageReadFinish(ssl);
